@@ -305,3 +305,29 @@ Proof.
   destruct (hals_init_zero_class [[-1]] [[2]] 1 [[-1/2]] H5) as [E _]. rewrite E.
   cbn. unfold fmax. cbn [fleb f0 Rops]. unfold Rleb. destruct (Rle_dec 0 (-1 / 2)); [lra | reflexivity].
 Qed.
+
+(* ====================================================================================== *)
+(*  fista: the stopping rule                                                              *)
+(* ====================================================================================== *)
+(* the iteration without its stopping rule *)
+Fixpoint fista_run (UtM UtU : mat) (n : nat) (nonneg : bool) (sp rd lr eps : R) (betas : list R) (x xu : mat) : mat :=
+  match betas with
+  | [] => x
+  | beta :: rest =>
+    let xn := fista_new Rops UtM UtU n nonneg sp rd lr eps xu in
+    fista_run UtM UtU n nonneg sp rd lr eps rest xn
+              (mmap2 (fun a d => fadd Rops a (fmul Rops beta d)) xn (mmap2 (fsub Rops) xn x))
+  end.
+Lemma fabs_nonneg t : 0 <= fabs Rops t.
+Proof. unfold fabs. cbn [fleb f0 fopp Rops]. unfold Rleb. destruct (Rle_dec 0 t); lra. Qed.
+(* with tol = 0 the rule |sum(x - x_new)| < tol * norm_0 never fires: the result is the full iterate *)
+Theorem fista_tol0_runs_all UtM UtU n nonneg sp rd lr eps betas : forall first norm0 x xu,
+  fista_loop Rops UtM UtU n nonneg sp rd lr 0 eps betas first norm0 x xu = fista_run UtM UtU n nonneg sp rd lr eps betas x xu.
+Proof.
+  induction betas as [|beta rest IH]; intros first norm0 x xu; [reflexivity|].
+  cbn [fista_loop fista_run]. cbv zeta.
+  match goal with |- context [fltb Rops ?a ?b] => assert (E : fltb Rops a b = false) end.
+  { unfold fltb. cbn [fleb fmul Rops]. apply negb_false_iff, Rleb_true.
+    match goal with |- _ <= fabs Rops ?t => pose proof (fabs_nonneg t) end. lra. }
+  rewrite E. apply IH.
+Qed.
